@@ -28,13 +28,17 @@ F1 = """/* header of f1 */
 #include 'sub/inc'
 #include 'sub/inc2'
 // first comment
+// ----
 alpha  3;
+// ----
 beta  "$alpha + $gamma";
 strv  'two words'; // trailing comment
 nested
 {
     // nested comment
+    // ----
     z  1;
+    // ----
     a  $alpha;
     lst (1 2 'x y');
 }
@@ -42,7 +46,7 @@ nested
 Zkey  true;
 bkey  'b';
 """
-INC = "gamma  4;\n// comment in include\nnested { fromInc 5; }\nshared  1;\n"
+INC = "// first comment\ngamma  4;\n// comment in include\nnested { fromInc 5; }\nshared  1;\n"      # shares its first comment with f1
 INC2 = "gamma  40;\nshared  2;\nonlyTwo  22;\n"
 F2 = '{"#include": "sub/inc", "j1": 1, "j2": "$gamma", "j3": {"b": "text", "a": [1, 2.5]}}'
 F3 = "fk 1;\n// foam comment\nfsub { v (1 2 3); }\n"
@@ -114,7 +118,8 @@ def do_op(root: Path, op: str, spelling: str, out_tag: str):
 PREFIX_OPS = ["read1", "read2", "read3", "write", "parse", "dumpload", "reset", "read1o"]
 OBSERVED = ["read1", "read1o", "read1n", "read2", "read3", "write", "writeo", "parse", "parseo", "parsej", "dumpload"]
 CWDS = [".", "sub", "sub/deep", "other"]
-COUNTERS = [-1, 5, 999990, 999992, 999993, 999994, 999995, 999997, 999999]
+# every offset of the wrap inside one read of f1 (about 14 placeholders): each placeholder gets id 0 under one of them
+COUNTERS = [-1, 5] + list(range(999984, 1000000))
 
 
 def run_scenario(case: dict):
